@@ -791,7 +791,7 @@ def copy_coverage(P, record, skip=()):
     for g in fns:
         for i in g.all_nodes():
             r = g.N(i).get('ref') if g.N(i)['k'] == 'MemberExpr' else None
-            if r and r.startswith('f:') and _m.strip_targs(r).startswith('f:' + record + '::'):
+            if r and r.startswith('f:') and _m.strip_targs(r).rsplit('::', 1)[0] == 'f:' + record:
                 fields.add(r)
     fields = set(x for x in fields if x.rsplit('::', 1)[-1] not in skip)
     out = {}
